@@ -524,11 +524,19 @@ fn empty_dict_name(fp: &Option<Vec<u8>>) -> bool {
         None => false,
     }
 }
+/// a DIRECTORY as the monitor is told it: the prefix `d` such that its children are `d/<name>` — the root directory is
+/// the empty prefix, not "/" (Coq: EffectsConfig.mcfg_of uses render' for the file-dictionary directory)
+fn dir_prefix(mut v: Vec<u8>) -> Vec<u8> {
+    if v == b"/" {
+        v.clear();
+    }
+    v
+}
 fn cfg_of(settings: &Value, home: &str) -> MCfg {
     let h = &settings["harper-ls"];
     MCfg {
         user: effective(h["userDictPath"].as_str(), home, ".config/harper-ls/dictionary.txt"),
-        filedir: effective(h["fileDictPath"].as_str(), home, ".local/share/harper-ls/file_dictionaries"),
+        filedir: dir_prefix(effective(h["fileDictPath"].as_str(), home, ".local/share/harper-ls/file_dictionaries")),
         stats: effective(h["statsPath"].as_str(), home, ".local/share/harper-ls/stats.txt"),
         own: vec![],
     }
@@ -1414,7 +1422,7 @@ fn config_cases(rep: &mut Report, r: &mut Rng, n: usize, only: Option<&Value>) {
         let got = guarded(|| lsx::config::Config::from_lsp_config(settings.clone()));
         let norm = |p: &std::path::PathBuf| normalize(b"/", p.as_os_str().as_bytes());
         let impl_line = match &got {
-            Ok(Ok(c)) => format!("{} {} {}", hex(&norm(&c.user_dict_path)), hex(&norm(&c.file_dict_path)), hex(&norm(&c.stats_path))),
+            Ok(Ok(c)) => format!("{} {} {} {}", hex(&norm(&c.user_dict_path)), hex(&norm(&c.file_dict_path)), hex(&norm(&c.stats_path)), hex(&dir_prefix(norm(&c.file_dict_path)))),
             Ok(Err(_)) => "E".to_string(),
             Err(_) => "P".to_string(),
         };
@@ -1587,7 +1595,7 @@ fn build_real_binary(rep: &mut Report) -> String {
     let b = Command::new("cargo")
         // not from inside /repo: its rust-toolchain.toml (channel "stable" + wasm32 target) would make rustup try to
         // sync the channel over the network; the toolchain is named explicitly instead
-        .args(["build", "--offline", "--locked", "--manifest-path", "/repo/Cargo.toml", "-p", "harper-ls"])
+        .args(["build", "--offline", "--locked", "--manifest-path", "/repo/Cargo.toml", "-p", "harper-ls", "-p", "harper-cli"])
         .current_dir(std::env::temp_dir())
         .env("CARGO_TARGET_DIR", &target)
         .env("CARGO_NET_OFFLINE", "true")
@@ -1595,9 +1603,9 @@ fn build_real_binary(rep: &mut Report) -> String {
         .output()
         .expect("cargo");
     rep.extra.insert("harper_ls_build_s".into(), json!(t0.elapsed().as_secs_f64()));
-    if !b.status.success() || !Path::new(&bin).exists() {
+    if !b.status.success() || !Path::new(&bin).exists() || !Path::new(&format!("{target}/debug/harper-cli")).exists() {
         let err = String::from_utf8_lossy(&b.stderr).to_string();
-        panic!("cargo build -p harper-ls failed: {}", &err[err.len().saturating_sub(1500)..]);
+        panic!("cargo build -p harper-ls -p harper-cli failed: {}", &err[err.len().saturating_sub(1500)..]);
     }
     bin
 }
@@ -1729,12 +1737,229 @@ fn real_tcp_busy(rep: &mut Report, bin: &str) {
     }
 }
 
+
+// ------------------------------------------------------------------------------------------------ the real harper-cli binary
+/// harper-cli's own file_dict_name, restated from the documentation of std::path::Path::components: every component
+/// except the root followed by '%'. The harness only uses it to PRE-WRITE a file dictionary where the tool will look
+/// (the comparison itself is against the extracted C10Cli.cli_lint_reads).
+fn cli_dict_name(file: &str) -> String {
+    let mut out = String::new();
+    for c in Path::new(file).components() {
+        if !matches!(c, std::path::Component::RootDir) {
+            out.push_str(&c.as_os_str().to_string_lossy());
+            out.push('%');
+        }
+    }
+    out
+}
+
+struct CliRun {
+    argv: Vec<String>,
+    /// Some((user, filedir, file)) for `lint`: absolute user / filedir as openat(AT_FDCWD) will see them, file as typed
+    lint: Option<(String, String, String)>,
+    doc: Option<String>,
+}
+
+/// harper-cli writes nothing and talks to nobody, whatever the subcommand: every invocation runs under strace with the
+/// EMPTY monitor configuration (any open-for-writing / rename / unlink / mkdir / socket is a failure); the two
+/// dictionary files `lint` opens for reading are compared with the extracted C10Cli.cli_lint_reads (cases `K`); the
+/// scratch tree must be byte-identical afterwards.
+fn real_cli(rep: &mut Report, args: &Args, cli: &str) {
+    let scratch = format!("/tmp/w-c10-{}-cli", std::process::id());
+    let _ = std::fs::remove_dir_all(&scratch);
+    let home = format!("{scratch}/home");
+    let cwd = format!("{scratch}/cwd");
+    let mut r = Rng::new(args.seed ^ 0xC11);
+    let mut pre: BTreeMap<String, Vec<u8>> = BTreeMap::new();
+    let mut put = |p: String, text: &str| {
+        if let Some(d) = Path::new(&p).parent() {
+            std::fs::create_dir_all(d).unwrap();
+        }
+        std::fs::write(&p, text).unwrap();
+        pre.insert(p, text.as_bytes().to_vec());
+    };
+    let md = "# Teh titel\n\nSome blorfl text with a zorgle in it. This are an test.\n";
+    put(format!("{cwd}/a.md"), md);
+    put(format!("{cwd}/sub/b.md"), "An other  sentence with vlimp.\n");
+    put(format!("{cwd}/wörter dé.md"), "Ein zorgle, deux blorfl.\n");
+    put(format!("{cwd}/notes.lhs"), "A literate file with teh typo.\n\n> main = putStrLn \"hi\"\n");
+    put(format!("{cwd}/paper.typ"), "= Heading\n\nSome typst text with a zorgle.\n");
+    put(format!("{cwd}/main.rs"), "// A comment with teh typo and a zorgle.\nfn main() {}\n");
+    put(format!("{cwd}/script.py"), "# anohter comment\nprint(1)\n");
+    put(format!("{cwd}/plain.txt"), "No language for this one.\n");
+    put(format!("{cwd}/stats.txt"), "{\"kind\":\"nothing a Stats::read accepts\"}\n");
+    put(format!("{cwd}/u.txt"), "zorgle\n");
+    put(format!("{home}/.config/harper-ls/dictionary.txt"), "blorfl\n");
+    // file dictionaries where `lint` will look: for a.md typed absolutely, typed relatively, and under the default directory
+    put(format!("{cwd}/fd/{}", cli_dict_name(&format!("{cwd}/a.md"))), "blorfl\n");
+    put(format!("{cwd}/fd/{}", cli_dict_name("a.md")), "blorfl\n");
+    put(format!("{home}/.local/share/harper-ls/file_dictionaries/{}", cli_dict_name("sub/b.md")), "vlimp\n");
+    drop(put);
+    let sv = |v: &[&str]| v.iter().map(|s| s.to_string()).collect::<Vec<String>>();
+    let dflt_user = format!("{home}/.config/harper-ls/dictionary.txt");
+    let dflt_fd = format!("{home}/.local/share/harper-ls/file_dictionaries/");
+    let abs = |p: &str| if p.starts_with('/') { p.to_string() } else { format!("{cwd}/{p}") };
+    let mut runs: Vec<CliRun> = vec![];
+    let mut lint = |file: &str, u: Option<&str>, f: Option<&str>, extra: &[&str]| {
+        let mut argv = sv(&["lint"]);
+        argv.extend(sv(extra));
+        if let Some(u) = u {
+            argv.extend(sv(&["-u", u]));
+        }
+        if let Some(f) = f {
+            argv.extend(sv(&["-f", f]));
+        }
+        argv.push(file.to_string());
+        runs.push(CliRun {
+            argv,
+            lint: Some((u.map(|x| abs(x)).unwrap_or_else(|| dflt_user.clone()), f.map(|x| abs(x)).unwrap_or_else(|| dflt_fd.clone()), file.to_string())),
+            doc: Some(abs(file)),
+        });
+    };
+    let abs_a = format!("{cwd}/a.md");
+    lint(&abs_a, Some(&format!("{cwd}/u.txt")), Some(&format!("{cwd}/fd")), &[]);
+    lint("a.md", Some("u.txt"), Some("fd"), &[]);
+    lint("./sub/../a.md", Some("./u.txt"), Some("fd/"), &[]);
+    lint("sub/b.md", None, None, &[]);
+    lint("wörter dé.md", Some("no-such-dict.txt"), Some("no/such/dir"), &["--count"]);
+    lint("main.rs", Some("u.txt"), Some("fd/../fd"), &["-o", "SpellCheck", "-d", "British"]);
+    lint("notes.lhs", Some("u.txt"), None, &[]);
+    lint("paper.typ", None, Some("fd"), &[]);
+    lint("script.py", Some("sub/../u.txt"), Some("."), &["--count"]);
+    if args.thorough() {
+        lint("plain.txt", Some("u.txt"), Some("fd"), &[]);
+    }
+    lint("missing.md", Some("u.txt"), Some("fd"), &[]);
+    lint(".", Some("u.txt"), Some("fd"), &[]);
+    lint("/", Some("u.txt"), Some("fd"), &[]);
+    let files = ["a.md", "sub/b.md", "./a.md", "sub/./b.md", "sub/../sub/b.md", "././main.rs", "../cwd/a.md", "sub//b.md", "paper.typ", "wörter dé.md"];
+    let dicts = ["u.txt", "./u.txt", "nope.txt", "sub/../u.txt"];
+    let dirs = ["fd", "fd/", "./fd", "sub/../fd", ".", "nodir", "fd/.."];
+    for _ in 0..args.scale(2, 40) {
+        let f = if r.chance(1, 4) { format!("{cwd}/{}", r.pick(&files[..])) } else { r.pick(&files[..]).to_string() };
+        let u = if r.chance(1, 5) { None } else { Some(*r.pick(&dicts[..])) };
+        let d = if r.chance(1, 5) { None } else { Some(*r.pick(&dirs[..])) };
+        let extra: &[&str] = if r.chance(1, 2) { &["--count"] } else { &[] };
+        lint(&f, u, d, extra);
+    }
+    drop(lint);
+    for (argv, doc) in [
+        (sv(&["parse", "a.md"]), Some("a.md")),
+        (sv(&["spans", "-i", "main.rs"]), Some("main.rs")),
+        (sv(&["words"]), None),
+        (sv(&["metadata", "hello"]), None),
+        (sv(&["forms", "zorgle/S"]), None),
+        (sv(&["config"]), None),
+        (sv(&["mine-words", "sub/b.md"]), Some("sub/b.md")),
+        (sv(&["summarize-lint-record", "stats.txt"]), Some("stats.txt")),
+        (sv(&["--version"]), None),
+    ] {
+        // quick tier: the subcommands that only print built-in data once (`words`) — the others in the thorough tier
+        if !args.thorough() && matches!(argv[0].as_str(), "metadata" | "forms" | "--version") {
+            continue;
+        }
+        runs.push(CliRun { argv, lint: None, doc: doc.map(|d| abs(d)) });
+    }
+    // run them in parallel (each ~3 s of CPU in a debug build: the curated dictionary is built at start-up)
+    let results: Vec<(String, usize, i32)> = {
+        let handles: Vec<_> = runs
+            .iter()
+            .enumerate()
+            .map(|(i, run)| {
+                let log = format!("{scratch}.{i}.strace");
+                let mut cmd = strace_cmd(&log);
+                cmd.arg(cli).args(&run.argv);
+                cmd.env_clear().env("PATH", std::env::var("PATH").unwrap_or_default()).env("HOME", &home).current_dir(&cwd);
+                cmd.stdin(Stdio::null()).stdout(Stdio::piped()).stderr(Stdio::null());
+                std::thread::spawn(move || {
+                    let out = cmd.output().expect("strace harper-cli");
+                    let text = String::from_utf8_lossy(&std::fs::read(&log).unwrap_or_default()).to_string();
+                    let _ = std::fs::remove_file(&log);
+                    (text, out.stdout.iter().filter(|c| **c == b'\n').count(), out.status.code().unwrap_or(-1))
+                })
+            })
+            .collect();
+        handles.into_iter().map(|h| h.join().expect("cli thread")).collect()
+    };
+    let mut cfgs = BTreeMap::new();
+    cfgs.insert("cli".to_string(), MCfg::none());
+    let (mut n_k, mut n_doc_reads, mut n_dict_found) = (0u64, 0u64, 0u64);
+    for (run, (logtext, out_lines, code)) in runs.iter().zip(results.iter()) {
+        let sub = run.argv[0].clone();
+        let input = |what: &str| json!({"kind": "cli", "argv": run.argv, "syscall": what});
+        let (judged, stats) = judge_log(rep, logtext, cwd.as_bytes(), &cfgs, "cli", "real-cli");
+        for (k, v) in &stats {
+            if k.starts_with("real-cli") {
+                rep.count_n(&format!("{k}:{sub}"), *v);
+            }
+        }
+        rep.count(&format!("real-cli:{sub}:exit {code}"));
+        if judged.is_empty() || !logtext.contains("execve(") && !judged.iter().any(|j| matches!(j.ev, Ev::Open(false, _))) {
+            panic!("real harper-cli {:?}: vacuous trace ({} records)", run.argv, judged.len());
+        }
+        if sub == "words" && *out_lines < 10000 {
+            panic!("real harper-cli words: only {out_lines} lines of output");
+        }
+        for j in &judged {
+            if j.verdict != 0 {
+                rep.fail(verdict_class(j.verdict), format!("real harper-cli {:?}: {}", run.argv, j.line.chars().take(300).collect::<String>()), input(&j.line));
+            }
+        }
+        let reads: Vec<&Vec<u8>> = judged.iter().filter_map(|j| match &j.ev { Ev::Open(false, p) if p.starts_with(scratch.as_bytes()) => Some(p), _ => None }).collect();
+        if let Some(doc) = &run.doc {
+            if Path::new(doc).is_file() {
+                if reads.iter().any(|p| **p == normalize(b"/", doc.as_bytes())) {
+                    n_doc_reads += 1;
+                } else {
+                    panic!("real harper-cli {:?}: the document {doc} was never opened — vacuous", run.argv);
+                }
+            }
+        }
+        if let Some((u, d, f)) = &run.lint {
+            // the two dictionary loads come first in `lint` (before the document is read)
+            let got: Vec<String> = reads.iter().take(2).map(|p| hex(p)).collect();
+            rep.eval();
+            rep.case(&format!("K {} {} {}", hex(u.as_bytes()), hex(d.as_bytes()), hex(f.as_bytes())), &got.join(" "));
+            rep.nontrivial(&(u, d, f));
+            n_k += 1;
+            if reads.len() >= 2 && Path::new(&String::from_utf8_lossy(reads[1]).to_string()).is_file() {
+                n_dict_found += 1;
+            }
+            rep.count(&format!("real-cli:lint:file {}", if f.starts_with('/') { "absolute" } else if f.starts_with('.') { "relative, leading dot" } else { "relative" }));
+        }
+    }
+    rep.monitor("real_cli_invocations", runs.len() as u64);
+    rep.monitor("real_cli_lint_dictionary_reads_compared_with_model", n_k);
+    rep.monitor("real_cli_documents_seen_opened", n_doc_reads);
+    rep.monitor("real_cli_file_dictionaries_found_where_the_model_says", n_dict_found);
+    if n_dict_found < 3 {
+        panic!("real harper-cli: only {n_dict_found} lint runs found their pre-written file dictionary — vacuous");
+    }
+    let mut files = vec![];
+    walk(Path::new(&scratch), &mut files);
+    for f in files {
+        match pre.get(&f) {
+            Some(orig) => {
+                if std::fs::read(&f).ok().as_deref() != Some(orig.as_slice()) {
+                    rep.fail("document-modified", format!("real harper-cli modified {f}"), json!({"kind": "cli", "file": f}));
+                }
+            }
+            None => rep.fail("stray-file", format!("real harper-cli left {f}"), json!({"kind": "cli", "file": f})),
+        }
+    }
+    if std::env::var("C10_KEEP").is_err() {
+        let _ = std::fs::remove_dir_all(&scratch);
+    }
+}
+
 fn real_binary(rep: &mut Report, _args: &Args) {
     let bin = build_real_binary(rep);
     real_tcp_busy(rep, &bin);
     // "stdio-empty": an editor that sends the string-typed path settings present but EMPTY (seed c10-4) and a relative
     // statsPath: the dictionaries must land in the default locations under $HOME, the statistics under the cwd
-    for mode in ["stdio", "stdio-empty", "tcp"] {
+    real_cli(rep, _args, &format!("{}/debug/harper-cli", ls_target()));
+    // "stdio-userdir": a userDictPath that names a DIRECTORY by ending in `..` (config.rs accepts it): finding FC10b
+    for mode in ["stdio", "stdio-empty", "stdio-userdir", "tcp"] {
         let scratch = format!("/tmp/w-c10-{}-{mode}", std::process::id());
         let log = format!("{scratch}.strace");
         let _ = std::fs::remove_dir_all(&scratch);
@@ -1749,6 +1974,8 @@ fn real_binary(rep: &mut Report, _args: &Args) {
             json!({"harper-ls": {"userDictPath": format!("{scratch}/u/dict.txt"), "fileDictPath": format!("{scratch}/fd"), "statsPath": format!("{scratch}/st/stats.txt")}})
         } else if mode == "stdio-empty" {
             json!({"harper-ls": {"userDictPath": "", "fileDictPath": "", "statsPath": "rel-stats/../rel-stats/s.txt"}})
+        } else if mode == "stdio-userdir" {
+            json!({"harper-ls": {"userDictPath": format!("{scratch}/ud/inner/.."), "fileDictPath": format!("{scratch}/fd"), "statsPath": format!("{scratch}/st/stats.txt")}})
         } else {
             json!({"harper-ls": {}})
         };
@@ -1854,8 +2081,39 @@ fn real_binary(rep: &mut Report, _args: &Args) {
                     rep.fail("listener-not-loopback-only", format!("real harper-ls (tcp): {}", j.line.chars().take(300).collect::<String>()), input(&j.line));
                 }
             } else if j.verdict != 0 {
-                rep.fail(verdict_class(j.verdict), format!("real harper-ls ({mode}): {}", j.line.chars().take(300).collect::<String>()), input(&j.line));
+                // FC10b: with a userDictPath that names a directory, save_dict creates the directory, puts `.tmp` INSIDE
+                // it and tries to rename that onto the directory. Exactly these calls get the finding's own class.
+                let ud = format!("{scratch}/ud");
+                let fc10b = mode == "stdio-userdir"
+                    && match &j.ev {
+                        Ev::Open(true, p) => p == format!("{ud}/.tmp").as_bytes(),
+                        Ev::Rename(a, b) => a == format!("{ud}/.tmp").as_bytes() && b == ud.as_bytes(),
+                        Ev::Mkdir(p) => p == ud.as_bytes() || p == format!("{ud}/inner").as_bytes(),
+                        _ => false,
+                    };
+                let class = if fc10b { "userdict-names-directory" } else { verdict_class(j.verdict) };
+                rep.fail(class, format!("real harper-ls ({mode}): {}", j.line.chars().take(300).collect::<String>()), input(&j.line));
             }
+        }
+        if mode == "stdio-userdir" {
+            // the same command against the extracted save-path model: correspondence case `U` (model: O<ud>/.tmp R<ud>/.tmp:<ud>)
+            let ud = format!("{scratch}/ud");
+            let mut parts: Vec<String> = vec![];
+            for j in &judged {
+                let part = match &j.ev {
+                    Ev::Open(true, p) if p.starts_with(ud.as_bytes()) => Some(format!("O{}", hex(p))),
+                    Ev::Rename(a, b) if a.starts_with(ud.as_bytes()) || b.starts_with(ud.as_bytes()) => Some(format!("R{}:{}", hex(a), hex(b))),
+                    _ => None,
+                };
+                if let Some(x) = part {
+                    if !parts.contains(&x) {
+                        parts.push(x);
+                    }
+                }
+            }
+            rep.eval();
+            rep.case(&format!("U {}", hex(format!("{scratch}/ud/inner/..").as_bytes())), &if parts.is_empty() { "-".to_string() } else { parts.join(" ") });
+            rep.count("real-stdio-userdir:user_dict_save_compared_with_model");
         }
         if mode == "tcp" && inet_sockets != 1 {
             rep.fail("listener-not-loopback-only", format!("real harper-ls (tcp) created {inet_sockets} internet sockets, expected exactly the listener"), input("socket count"));
@@ -1868,7 +2126,8 @@ fn real_binary(rep: &mut Report, _args: &Args) {
                     rep.fail("document-modified", format!("real harper-ls ({mode}) modified {f}"), input(&f));
                 }
             } else if !path_allowed(&cfgs["real"], f.as_bytes()) {
-                rep.fail("stray-file", format!("real harper-ls ({mode}) left {f}"), input(&f));
+                let class = if mode == "stdio-userdir" && f == format!("{scratch}/ud/.tmp") { "userdict-names-directory" } else { "stray-file" };
+                rep.fail(class, format!("real harper-ls ({mode}) left {f}"), input(&f));
             }
         }
         if std::env::var("C10_KEEP").is_err() {
@@ -1921,6 +2180,11 @@ fn main() {
             }
             "real" => {
                 real_binary(&mut rep, &args);
+                ran_replay = true;
+            }
+            "cli" => {
+                let _ = build_real_binary(&mut rep);
+                real_cli(&mut rep, &args, &format!("{}/debug/harper-cli", ls_target()));
                 ran_replay = true;
             }
             "config" => {
